@@ -19,13 +19,15 @@ import (
 func init() { Extractors["C06"] = c06Facts }
 
 type c06Summary struct {
-	MergeClauses   map[string]string `json:"merge_clauses"`
-	CloneCopied    []string          `json:"clone_copied"`
-	CloneShared    []string          `json:"clone_shared"`
-	CloneMaps      []string          `json:"clone_fresh_maps"`
-	SelfAppends    []string          `json:"chain_methods_appending_to_statement_slices"`
-	UnresetAppends []string          `json:"appends_onto_shared_slices_without_fresh_reset"`
-	WhereSwap      string            `json:"where_build_swap"`
+	MergeClauses     map[string]string `json:"merge_clauses"`
+	CloneCopied      []string          `json:"clone_copied"`
+	CloneShared      []string          `json:"clone_shared"`
+	CloneMaps        []string          `json:"clone_fresh_maps"`
+	SelfAppends      []string          `json:"chain_methods_appending_to_statement_slices"`
+	UnresetAppends   []string          `json:"appends_onto_shared_slices_without_fresh_reset"`
+	ReceiverWrites   []string          `json:"chain_methods_writing_the_receiver_statement"`
+	SessionUnguarded []string          `json:"session_statement_writes_not_guarded_by_the_clone"`
+	WhereSwap        string            `json:"where_build_swap"`
 }
 
 func recvType(fd *ast.FuncDecl) string {
@@ -409,6 +411,132 @@ func c06Facts(repo string, w io.Writer) (interface{}, error) {
 		}
 		walk(fd.Name.Name, fd.Body.List, map[string]bool{})
 	}
+	// chain methods must write the instance they got from getInstance (tx), never the receiver's
+	// statement: every assignment / inc-dec whose target is rooted at <receiver>.Statement in an
+	// exported method of DB (chainable_api.go) that calls <receiver>.getInstance()
+	for _, d := range chainFile.Decls {
+		fd, ok := d.(*ast.FuncDecl)
+		if !ok || fd.Body == nil || fd.Recv == nil || recvType(fd) != "DB" || len(fd.Recv.List[0].Names) == 0 || !ast.IsExported(fd.Name.Name) {
+			continue
+		}
+		rv := fd.Recv.List[0].Names[0].Name
+		callsGet := false
+		ast.Inspect(fd.Body, func(n ast.Node) bool {
+			if c, ok := n.(*ast.CallExpr); ok && exprString(c.Fun) == rv+".getInstance" {
+				callsGet = true
+			}
+			return true
+		})
+		if !callsGet {
+			continue
+		}
+		ast.Inspect(fd.Body, func(n ast.Node) bool {
+			var targets []ast.Expr
+			switch x := n.(type) {
+			case *ast.AssignStmt:
+				if x.Tok != token.DEFINE {
+					targets = x.Lhs
+				}
+			case *ast.IncDecStmt:
+				targets = []ast.Expr{x.X}
+			}
+			for _, t := range targets {
+				if ts := exprString(t); strings.HasPrefix(ts, rv+".Statement.") || ts == rv+".Statement" {
+					sum.ReceiverWrites = append(sum.ReceiverWrites, fd.Name.Name+":"+ts)
+				}
+			}
+			return true
+		})
+	}
+	sort.Strings(sum.ReceiverWrites)
+	// DB.Session: the new handle shares the parent's *Statement unless the clone guard fires; every
+	// `if config.X ... { tx.Statement.<f> = ... }` must have config.X as a plain disjunct of that guard
+	if gf, err := parser.ParseFile(fset, filepath.Join(repo, "gorm.go"), nil, 0); err == nil {
+		for _, d := range gf.Decls {
+			fd, ok := d.(*ast.FuncDecl)
+			if !ok || fd.Name.Name != "Session" || recvType(fd) != "DB" || fd.Body == nil {
+				continue
+			}
+			var disj func(e ast.Expr) []ast.Expr
+			disj = func(e ast.Expr) []ast.Expr {
+				if p, ok := e.(*ast.ParenExpr); ok {
+					return disj(p.X)
+				}
+				if b, ok := e.(*ast.BinaryExpr); ok && b.Op == token.LOR {
+					return append(disj(b.X), disj(b.Y)...)
+				}
+				return []ast.Expr{e}
+			}
+			cfgField := func(e ast.Expr) string { // config.X | config.X != nil | config.X > 0
+				if b, ok := e.(*ast.BinaryExpr); ok && (b.Op == token.NEQ || b.Op == token.GTR) {
+					e = b.X
+				}
+				if es := exprString(e); strings.HasPrefix(es, "config.") && !strings.Contains(strings.TrimPrefix(es, "config."), ".") {
+					return strings.TrimPrefix(es, "config.")
+				}
+				return ""
+			}
+			guard := map[string]bool{}
+			hasGuard := false
+			for _, st := range fd.Body.List {
+				is, ok := st.(*ast.IfStmt)
+				if !ok {
+					continue
+				}
+				clones := false
+				ast.Inspect(is.Body, func(n ast.Node) bool {
+					if as, ok := n.(*ast.AssignStmt); ok && len(as.Lhs) == 1 && exprString(as.Lhs[0]) == "tx.Statement" {
+						clones = true
+					}
+					return true
+				})
+				if clones {
+					hasGuard = true
+					for _, dj := range disj(is.Cond) {
+						if f := cfgField(dj); f != "" {
+							guard[f] = true
+						}
+					}
+				}
+			}
+			for _, st := range fd.Body.List {
+				is, ok := st.(*ast.IfStmt)
+				if !ok {
+					continue
+				}
+				var fields []string
+				ast.Inspect(is.Cond, func(n ast.Node) bool {
+					if se, ok := n.(*ast.SelectorExpr); ok && exprString(se.X) == "config" {
+						fields = append(fields, se.Sel.Name)
+					}
+					return true
+				})
+				ast.Inspect(is.Body, func(n ast.Node) bool {
+					as, ok := n.(*ast.AssignStmt)
+					if !ok {
+						return true
+					}
+					for _, l := range as.Lhs {
+						ls := exprString(l)
+						if !strings.HasPrefix(ls, "tx.Statement.") {
+							continue
+						}
+						okay := hasGuard && len(fields) > 0
+						for _, f := range fields {
+							if !guard[f] {
+								okay = false
+							}
+						}
+						if !okay {
+							sum.SessionUnguarded = append(sum.SessionUnguarded, strings.Join(fields, "+")+":"+ls)
+						}
+					}
+					return true
+				})
+			}
+		}
+	}
+	sort.Strings(sum.SessionUnguarded)
 	for k := range seen {
 		sum.SelfAppends = append(sum.SelfAppends, k)
 	}
@@ -451,6 +579,8 @@ func c06Facts(repo string, w io.Writer) (interface{}, error) {
 	strs("clone_fresh_maps", sum.CloneMaps)
 	strs("self_appends", sum.SelfAppends)
 	strs("unreset_appends", sum.UnresetAppends)
+	strs("receiver_writes", sum.ReceiverWrites)
+	strs("session_unguarded", sum.SessionUnguarded)
 	fmt.Fprintf(w, "Definition where_build_swap : mclass := %s.\n", sum.WhereSwap)
 	return sum, nil
 }
